@@ -222,6 +222,14 @@ class ArrEvaluator(Evaluator):
         if isinstance(e.op, ast.BitOr) and isinstance(l, SelV) and isinstance(r, SelV) and not l.cmp and not r.cmp and \
                 l.types is not None and r.types is not None:
             return SelV(l.types | r.types)
+        # arithmetic on an index array: another index array, named by the expression (`first(b + 1) - 1` is not `last(b)` in a padded layout)
+        if isinstance(e.op, (ast.Add, ast.Sub)):
+            li = IdxV(l.role, l.sel) if isinstance(l, ArrV) and l.kind == "index" else l
+            ri = IdxV(r.role, r.sel) if isinstance(r, ArrV) and r.kind == "index" else r
+            if isinstance(li, IdxV) and isinstance(e.right, ast.Constant) and isinstance(e.right.value, int):
+                return IdxV(f"({li.desc}{'+' if isinstance(e.op, ast.Add) else '-'}{e.right.value})") if e.right.value != 0 else li
+            if isinstance(ri, IdxV) and isinstance(e.left, ast.Constant) and isinstance(e.left.value, int) and isinstance(e.op, ast.Add):
+                return IdxV(f"({ri.desc}+{e.left.value})") if e.left.value != 0 else ri
         if isinstance(l, ArrV) or isinstance(r, ArrV):
             if isinstance(e.op, ast.Mult):
                 arr, other = (l, r) if isinstance(l, ArrV) else (r, l)
